@@ -143,6 +143,210 @@ def oracle_c18(res, lf=None):
     return {'failures': fails, 'distinct': distinct, 'samples': samples, 'stats': stats}
 
 
+def schema_from_lines(lines, idx):
+    """rebuild the pbgen.Schema in force at case line idx"""
+    start = None
+    for i in range(idx, -1, -1):
+        if lines[i].startswith('schema '):
+            start = i
+            break
+    if start is None:
+        return None
+    msgs = []
+    j = start + 1
+    while j < len(lines) and lines[j].startswith('msg '):
+        t = lines[j].split()
+        nf, initmode, ngroups = int(t[3]), int(t[4]), int(t[5])
+        fields = []
+        for k in range(nf):
+            ft = lines[j + 1 + k].split()
+            d = ft[8]
+            dflt = None
+            if d == 'E':
+                dflt = ('E', None)
+            elif d[0] == 'S':
+                dflt = ('S', bytes.fromhex(d[1:]))
+            elif d[0] == 'B':
+                dflt = ('B', bytes.fromhex(d[1:]))
+            elif d[0] == 'V':
+                dflt = ('V', int(d[1:], 16))
+            init = int(ft[9][1:], 16) if ft[9][0] == 'V' else None
+            fields.append(pbgen.Field(ft[1], int(ft[2]), int(ft[3]), int(ft[4]), int(ft[5]), int(ft[6]), int(ft[7]), dflt, init))
+        m = pbgen.Msg(t[2], fields, initmode, ngroups)
+        m.fields = fields      # keep file order (already sorted by id)
+        msgs.append(m)
+        j += 1 + nf
+    return pbgen.Schema(msgs)
+
+
+_schema_cache = {}
+
+
+def schema_at(res, idx):
+    start = None
+    for i in range(idx, -1, -1):
+        if res['lines'][i].startswith('schema '):
+            start = i
+            break
+    key = (id(res), start)
+    if key not in _schema_cache:
+        if len(_schema_cache) > 64:
+            _schema_cache.clear()
+        _schema_cache[key] = schema_from_lines(res['lines'], idx)
+    return _schema_cache[key]
+
+
+RULES.update({
+    'c01': 'random schemas (proto2/proto3, all 17 types, all labels, packed/unpacked, oneofs, nesting, sparse and huge field '
+           'numbers) x well-formed messages with boundary-heavy values, -0.0/NaN payloads, lengths around 127/128, unknown fields; '
+           'each is packed, parsed back and compared member by member (bitwise) by this oracle; non-trivial = message whose '
+           'encoding has >= 2 bytes; distinct by hash of the encoding',
+    'c05': 'valid encodings, non-canonical re-encodings, truncations at random offsets, bit flips, byte substitutions, '
+           'insertions of continuation bytes, splices and pure random bytes, over random schemas, parsed by the real code under '
+           'ASan+UBSan from an exact-size heap block; non-trivial = input of >= 2 bytes; distinct by (schema block, input) hash',
+    'c06': 'same byte strings as C05; for every ACCEPTED input: message_check, three serialisers, re-parse, re-serialise; '
+           'non-trivial = accepted input of >= 2 bytes; distinct by hash',
+    'c11': 'proto2 schemas biased to required fields (any count incl. >128 in the thorough tier, any numbering) x encodings '
+           'with all required fields present or exactly one required field without default removed at a random nesting depth, '
+           'fields shuffled, unknown fields interleaved, stale occurrences; expectation is computed by the generator; '
+           'non-trivial = every case; distinct by hash of the input',
+})
+
+
+def oracle_c01(res, lf=None):
+    fails, distinct, samples = [], [], []
+    stats = {'roundtrips': 0, 'with_unknown': 0, 'with_oneof_selected': 0}
+    for i, l, out in iter_ops(res, lf):
+        op = l.split(' ', 1)[0]
+        if out.startswith('CRASH') or out == '<missing>':
+            fails.append((i, 'implementation crashed or produced no output (%s) on %s' % (out, op)))
+            continue
+        if op != 'rt':
+            continue
+        stats['roundtrips'] += 1
+        sch = schema_at(res, i)
+        orig, _ = pbgen.parse_lit(sch, l[3:])
+        m = re.match(r'pack=(\S*) unpack=(ok|fail)(.*)$', out)
+        if not m:
+            fails.append((i, 'unparseable harness output'))
+            continue
+        if m.group(2) == 'fail':
+            fails.append((i, 'the bytes produced by pack were rejected by unpack'))
+            continue
+        rest = m.group(3).strip()
+        got, used = pbgen.parse_lit(sch, rest)
+        tail = dict(x.split('=') for x in rest.split()[used:] if '=' in x)
+        if pbgen.sem(sch, orig) != pbgen.sem(sch, got):
+            fails.append((i, 'message after pack+unpack differs from the original (' + first_sem_diff(sch, orig, got) + ')'))
+        elif tail.get('repack_same') != '1':
+            fails.append((i, 're-serialising the parsed message gives different bytes'))
+        if len(m.group(1)) >= 4:
+            distinct.append(h(m.group(1)))
+        if orig['unk']:
+            stats['with_unknown'] += 1
+        if len(samples) < 3 and len(l) < 300:
+            samples.append({'op': l, 'impl': out[:300]})
+    return {'failures': fails, 'distinct': distinct, 'samples': samples, 'stats': stats}
+
+
+def first_sem_diff(sch, a, b):
+    sa, sb = pbgen.sem(sch, a), pbgen.sem(sch, b)
+    for k in sa[0]:
+        if sa[0][k] != sb[0].get(k):
+            return 'field %d: %s -> %s' % (k, str(sa[0][k])[:80], str(sb[0].get(k))[:80])
+    if sa[1] != sb[1]:
+        return 'unknown fields differ'
+    return '?'
+
+
+def oracle_c05(res, lf=None):
+    fails, distinct, samples = [], [], []
+    stats = {'inputs': 0, 'accepted': 0, 'rejected': 0}
+    for i, l, out in iter_ops(res, lf):
+        t = l.split()
+        op = t[0]
+        if op not in ('unpack', 'acc', 'unpackf'):
+            continue
+        stats['inputs'] += 1
+        if out.startswith('CRASH') or out == '<missing>':
+            fails.append((i, 'parser crashed / sanitizer report / timeout (%s)' % out))
+            continue
+        if out.startswith('ok'):
+            stats['accepted'] += 1
+        elif out.startswith('fail'):
+            stats['rejected'] += 1
+        else:
+            fails.append((i, 'unexpected harness output'))
+        d = kv(out)
+        if d.get('live', '0') != '0' or d.get('foreign', '0') != '0':
+            fails.append((i, 'allocator imbalance after parse (+free): live=%s foreign=%s' % (d.get('live'), d.get('foreign'))))
+        if len(t[2]) >= 5:
+            distinct.append(h(' '.join(pbgen_block(res, i)) + t[1] + t[2]))
+        if len(samples) < 3 and len(l) < 200:
+            samples.append({'op': l, 'impl': out[:200]})
+    return {'failures': fails, 'distinct': distinct, 'samples': samples, 'stats': stats}
+
+
+def pbgen_block(res, idx):
+    for i in range(idx, -1, -1):
+        if res['lines'][i].startswith('schema '):
+            return [str(i)]
+    return ['-']
+
+
+def oracle_c06(res, lf=None):
+    fails, distinct, samples = [], [], []
+    stats = {'inputs': 0, 'accepted': 0}
+    for i, l, out in iter_ops(res, lf):
+        t = l.split()
+        if t[0] != 'acc':
+            continue
+        stats['inputs'] += 1
+        if out.startswith('CRASH') or out == '<missing>':
+            fails.append((i, 'crash / sanitizer report while parsing or re-serialising an input (%s)' % out))
+            continue
+        if not out.startswith('ok'):
+            continue
+        stats['accepted'] += 1
+        d = kv(out)
+        if d.get('check') != '1':
+            fails.append((i, 'accepted message fails protobuf_c_message_check'))
+        elif d.get('same3') != '1':
+            fails.append((i, 'the three serialisers disagree on an accepted message'))
+        elif d.get('re') != 'ok':
+            fails.append((i, 'bytes serialised from an accepted message are refused by the parser'))
+        elif d.get('stable') != '1':
+            fails.append((i, 'second serialisation differs from the first'))
+        if len(t[2]) >= 5:
+            distinct.append(h(pbgen_block(res, i)[0] + t[1] + t[2]))
+        if len(samples) < 3 and len(l) < 200:
+            samples.append({'op': l, 'impl': out[:200]})
+    return {'failures': fails, 'distinct': distinct, 'samples': samples, 'stats': stats}
+
+
+def oracle_c11(res, lf=None):
+    fails, distinct, samples = [], [], []
+    stats = {'complete': 0, 'missing_one': 0}
+    for i, l, out in iter_ops(res, lf):
+        t = l.split()
+        if t[0] != 'unpack' or not t[-1].startswith('#expect='):
+            continue
+        exp = t[-1].split('=')[1]
+        if out.startswith('CRASH') or out == '<missing>':
+            fails.append((i, 'crash (%s)' % out))
+            continue
+        got = 'ok' if out.startswith('ok') else 'fail'
+        stats['complete' if exp == 'ok' else 'missing_one'] += 1
+        if exp == 'ok' and got == 'fail':
+            fails.append((i, 'an encoding with every required field present was rejected'))
+        if exp == 'fail' and got == 'ok':
+            fails.append((i, 'an encoding lacking a required field (no default) was accepted'))
+        distinct.append(h(pbgen_block(res, i)[0] + t[1] + t[2]))
+        if len(samples) < 3 and len(l) < 200:
+            samples.append({'op': l, 'impl': out[:120]})
+    return {'failures': fails, 'distinct': distinct, 'samples': samples, 'stats': stats}
+
+
 def match_known(known, pid, what, payload):
     """an OPEN finding of known_findings.json that matches this failure, else None"""
     for k in known.get('findings', []):
